@@ -3,6 +3,7 @@
    what holds is proved, the rest is refuted by evaluated witnesses. *)
 From Coq Require Import String ZArith List Bool Lia.
 From FcpV Require Import Base.Bits Schema.Types Layout.Packed Layout.PackedProofs Dbc.DbcProofs CanC.CModel CanC.CProofs CanC.CBigProofs.
+From FcpV Require CanC.CWriterLib CanC.CWriterProofs gen.PyCanC.
 Import ListNotations.
 Open Scope Z_scope.
 
@@ -113,6 +114,18 @@ Example c06_big_nonvacuous :
   is_big p = true /\ kind_of p = KI 16 /\ c_in_range p (-2) = true /\
   c_decode_msg [p] (c_encode_msg 7 [p] [-2]) = [-2] /\ cf_word (c_encode_msg 7 [p] [-2]) mod 2 ^ 16 = 65279.
 Proof. exact c_big_single_nonvacuous. Qed.
+
+(* ---- two helpers of can_c_writer.py translated from the source on every run (gen/PyCanC.v): the carrier width of enums / short types
+   is the model's for every bit length a CAN message can hold, and is_signed is decided by the first letter of the type's name ---- *)
+Theorem source_carrier_width_is_the_model :
+  forall x, 0 <= x <= 64 -> PyCanC.py_ceil_to_power_of_2 x = ceil_pow2_8 x.
+Proof. exact CWriterProofs.ceil_is_model. Qed.
+Print Assumptions source_carrier_width_is_the_model.
+
+Theorem source_signedness_is_the_first_letter_of_the_type_name :
+  forall name, PyCanC.py_is_signed name = starts_with_i name.
+Proof. exact CWriterProofs.is_signed_is_first_letter. Qed.
+Print Assumptions source_signedness_is_the_first_letter_of_the_type_name.
 
 Example c06_nonvacuous :
   let ps := [mkp "a"%string (SI 16) 0 16; mkp "m"%string (SEnumRef "Mode") 16 4; mkp "b"%string (SU 32) 20 32; mkp "c"%string (SI 8) 52 8] in
